@@ -22,6 +22,11 @@ enum Act {
     ReadNone,
     DelObserve(u64), // u64: id of the delete op (pairs with DelRemove)
     DelRemove(u64),
+    /// A create that was answered FAILED_PRECONDITION / INTERNAL because it was caught in a
+    /// racing deletion: it may or may not have created the resource.
+    MaybeCreate(u64),
+    /// Likewise for a delete answered with such a status.
+    MaybeDelete,
 }
 
 #[derive(Clone, Debug)]
@@ -71,6 +76,7 @@ pub fn check(h: &History, rep: &mut EpReport, topic_pool: &[String], sub_pool: &
                     e.push(mk(Act::DelRemove(o.op_id)));
                 }
                 5 => per_topic.entry(name.clone()).or_default().push(mk(Act::ReadNone)),
+                9 | 13 => per_topic.entry(name.clone()).or_default().push(mk(Act::MaybeDelete)),
                 _ => {}
             },
             Op::GetTopic { name } | Op::Publish { topic: name, .. } | Op::ListTopicSubs { topic: name, .. } => {
@@ -109,6 +115,10 @@ pub fn check(h: &History, rep: &mut EpReport, topic_pool: &[String], sub_pool: &
                     5 => {
                         per_topic.entry(topic.clone()).or_default().push(mk(Act::ReadNone));
                     }
+                    9 | 13 => {
+                        attrs.insert(o.op_id, Attrs { deadline: effective_deadline(*deadline_s) as i32, topic: topic.clone() });
+                        per_sub.entry(name.clone()).or_default().push(mk(Act::MaybeCreate(o.op_id)));
+                    }
                     _ => {}
                 }
             }
@@ -119,6 +129,7 @@ pub fn check(h: &History, rep: &mut EpReport, topic_pool: &[String], sub_pool: &
                     e.push(mk(Act::DelRemove(o.op_id)));
                 }
                 5 => per_sub.entry(name.clone()).or_default().push(mk(Act::ReadNone)),
+                9 | 13 => per_sub.entry(name.clone()).or_default().push(mk(Act::MaybeDelete)),
                 _ => {}
             },
             Op::GetSub { name } => match (code, out) {
@@ -222,6 +233,7 @@ fn apply(state: Option<u64>, act: &Act, attrs: &HashMap<u64, Attrs>) -> Option<O
         }
         Act::DelObserve(_) => state.map(Some),
         Act::DelRemove(_) => Some(state), // resolved by the caller, which knows what was observed
+        Act::MaybeCreate(_) | Act::MaybeDelete => Some(state), // alternatives explored by the caller
     }
 }
 
@@ -272,6 +284,28 @@ fn search(ops: &[LOp], attrs: &HashMap<u64, Attrs>, nodes: &mut u64) -> Option<b
                     let Some(inc) = node.state else { continue };
                     next.observed.push((*id, inc));
                     next.observed.sort();
+                }
+                Act::MaybeCreate(id) => {
+                    // alternative 1: it took effect (only possible on an absent name)
+                    if node.state.is_none() {
+                        let mut alt = node.clone();
+                        alt.state = Some(*id);
+                        alt.mask |= 1 << i;
+                        if seen.insert(alt.clone()) {
+                            stack.push(alt);
+                        }
+                    }
+                    // alternative 2 (below): no effect
+                }
+                Act::MaybeDelete => {
+                    if node.state.is_some() {
+                        let mut alt = node.clone();
+                        alt.state = None;
+                        alt.mask |= 1 << i;
+                        if seen.insert(alt.clone()) {
+                            stack.push(alt);
+                        }
+                    }
                 }
                 act => match apply(node.state, act, attrs) {
                     Some(s) => next.state = s,
